@@ -138,6 +138,17 @@ func H_C14_PaymentCalculate() {
 		pl.Document = &org.DocumentRef{Code: "1", Currency: c14Cur("doc.cur"), Tax: &tax.Total{Categories: []*tax.CategoryTotal{{Code: "VAT", Rates: []*tax.RateTotal{{Base: num.MakeAmount(100, 2)}}}}}}
 	}
 	pmt.Lines = []*PaymentLine{pl}
+	// a second row whose document is absent / without tax totals / with tax totals (either order of the two kinds)
+	if k := vrt.Choice("second", 4); k > 0 {
+		p2 := &PaymentLine{Debit: c14Amt("debit2")}
+		switch k {
+		case 2:
+			p2.Document = &org.DocumentRef{Code: "2"}
+		case 3:
+			p2.Document = &org.DocumentRef{Code: "2", Tax: &tax.Total{Categories: []*tax.CategoryTotal{{Code: "VAT", Rates: []*tax.RateTotal{{Base: num.MakeAmount(50, 2)}}}}}}
+		}
+		pmt.Lines = append(pmt.Lines, p2)
+	}
 	_ = pmt.calculate()
 	vrt.Reach("payment-calculate-returned")
 }
